@@ -402,8 +402,8 @@ async def run(ctx) -> None:
     if only:
         lossy[0] = True
     res1 = await attempt("first", k("start_gap", 0.0), bool(k("supp_first")), only)
-    if k("start_gap", 0.0) >= 4.9 or k("supp_first"):
-        strict = False  # the other side may legitimately have given up before its peer started
+    if k("start_gap", 0.0) >= 4.9 or k("supp_first") or any(o["op"] == "stall" and o["dur"] >= 1.0 for o in plan.ops):
+        strict = False  # the other side may legitimately have given up before its peer started / the host froze through a wait
     else:
         strict = not lossy[0] and judged_success[0]
     both = judge("first attempt", res1, strict)
